@@ -50,6 +50,23 @@ pub struct ReqSpec {
     pub k: usize,
     /// explicit byte offset (random driver); overrides at/k for the cut position when present
     pub off: Option<usize>,
+    /// none | sep | same: a `103 Early Hints` before the final response, in its own segment (100 ms earlier) or in
+    /// the same write as the head of the final response
+    pub interim: String,
+    /// fault goaway: last_stream_id below | equal | above the stream of this request
+    pub lsid: String,
+    /// the fault is separated from the bytes before it by a pause (sozu reads them in separate passes); otherwise
+    /// bytes and fault leave in one go (close: one segment carrying data + FIN)
+    pub split: bool,
+    /// mode newconn: pause of the client before it sends this request on its new connection
+    pub gap_ms: u64,
+}
+
+impl Default for ReqSpec {
+    fn default() -> Self {
+        ReqSpec { route: "a".into(), framing: "cl".into(), body: 1, fault: "none".into(), at: "none".into(), k: 0, off: None,
+                  interim: "none".into(), lsid: "na".into(), split: false, gap_ms: 0 }
+    }
 }
 
 #[derive(Clone, Debug)]
@@ -57,13 +74,15 @@ pub struct Scenario {
     pub id: u64,
     pub front: String, // h1 | h2
     pub back: String,  // h1 | h2
-    pub mode: String,  // seq | seqgap | pipe | mux
+    pub mode: String,  // seq | seqgap | pipe | mux | newconn (every request on its own frontend connection)
     pub nbk: usize,    // backends of cluster a: 1 or 2 (second one healthy)
     /// bf = listeners with back_timeout 1 s < front_timeout 2 s; ff = front_timeout 1 s < back_timeout 2 s
     pub timing: String,
     /// mux mode: pause between the HEADERS of consecutive streams (0 = back to back)
     pub gap_ms: u64,
     pub reqs: Vec<ReqSpec>,
+    /// (not serialised) the requests [lo, hi) this client connection carries (mode newconn)
+    pub sel: Option<(usize, usize)>,
 }
 
 fn gs(v: &Value, k: &str, d: &str) -> String { v.get(k).and_then(|x| x.as_str()).unwrap_or(d).to_string() }
@@ -91,14 +110,20 @@ impl Scenario {
                     at: gs(r, "at", "none"),
                     k: gu(r, "k", 0) as usize,
                     off: r.get("off").and_then(|x| x.as_u64()).map(|x| x as usize),
+                    interim: gs(r, "interim", "none"),
+                    lsid: gs(r, "lsid", "na"),
+                    split: r.get("split").and_then(|x| x.as_bool()).unwrap_or(false),
+                    gap_ms: gu(r, "gap_ms", 0),
                 })
                 .collect(),
+            sel: None,
         }
     }
     pub fn to_json(&self) -> Value {
         json!({"id": self.id, "front": self.front, "back": self.back, "mode": self.mode, "nbk": self.nbk, "timing": self.timing, "gap_ms": self.gap_ms,
                "reqs": self.reqs.iter().map(|r| json!({"route": r.route, "framing": r.framing, "body": r.body,
-                    "fault": r.fault, "at": r.at, "k": r.k, "off": r.off})).collect::<Vec<_>>()})
+                    "fault": r.fault, "at": r.at, "k": r.k, "off": r.off, "interim": r.interim, "lsid": r.lsid,
+                    "split": r.split, "gap_ms": r.gap_ms})).collect::<Vec<_>>()})
     }
 }
 
@@ -201,6 +226,19 @@ pub struct ScnEnv {
     pub log: Log,
     /// set by the scripted backend of cluster a once sozu has closed a connection the backend had closed first
     pub peer_closed: Arc<AtomicUsize>,
+    /// a backend that refuses connections until the client tells it to recover: (recover!, listening)
+    pub recover: Option<(Arc<AtomicBool>, Arc<AtomicBool>)>,
+}
+
+impl ScnEnv {
+    /// The refusing backend of cluster a starts listening (no-op when the scenario has none); waits until it does.
+    pub fn recover_backend(&self) {
+        if let Some((go, up)) = &self.recover {
+            if !go.swap(true, Ordering::SeqCst) { self.log.push("client", json!({"ev": "B_Recover"})); }
+            let until = Instant::now() + Duration::from_secs(5);
+            while !up.load(Ordering::SeqCst) && Instant::now() < until { std::thread::sleep(Duration::from_millis(2)); }
+        }
+    }
 }
 
 impl Rig {
@@ -225,6 +263,7 @@ impl Rig {
         let routes: Vec<&str> = scn.reqs.iter().map(|r| r.route.as_str()).collect();
         let scripts = Arc::new(scn.reqs.clone());
         let mut backends = Vec::new();
+        let mut recover = None;
         if routes.iter().any(|r| *r == "a" || *r == "partial") {
             let ca = format!("s{id}a");
             reqs.push(("cluster a".into(), RequestType::AddCluster(cluster(&ca))));
@@ -236,7 +275,10 @@ impl Rig {
                 .map(|r| if r.fault == "refuse" { BkMode::Refuse } else { BkMode::NeverAccept })
                 .next()
                 .unwrap_or(BkMode::Serve);
+            // mode newconn: the backend refuses while the requests scripted "refuse" are sent, then recovers
+            let mode = if mode == BkMode::Refuse && scn.mode == "newconn" && scn.reqs.iter().any(|r| r.route == "a" && r.fault != "refuse") { BkMode::RefuseThenServe } else { mode };
             let b1 = Backend::start("bk1", h2back, mode, scripts.clone(), false, log.clone(), peer_closed.clone())?;
+            if mode == BkMode::RefuseThenServe { recover = Some((b1.recover.clone(), b1.listening.clone())); }
             reqs.push(("backend 1".into(), RequestType::AddBackend(Worker::backend(&ca, "b1", b1.addr))));
             backends.push(b1);
             if scn.nbk >= 2 {
@@ -282,7 +324,7 @@ impl Rig {
                 return Err(format!("scenario {id}: {what} not accepted: {:?}", r.map(|r| r.message)));
             }
         }
-        Ok(ScnEnv { front, backends, log, peer_closed })
+        Ok(ScnEnv { front, backends, log, peer_closed, recover })
     }
 }
 
@@ -290,7 +332,7 @@ impl Rig {
 // scripted backends
 
 #[derive(Clone, Copy, Debug, PartialEq)]
-pub enum BkMode { Refuse, NeverAccept, Serve }
+pub enum BkMode { Refuse, NeverAccept, Serve, RefuseThenServe }
 
 pub struct Backend {
     pub name: String,
@@ -299,6 +341,8 @@ pub struct Backend {
     thread: Option<JoinHandle<()>>,
     raw_fd: Option<i32>,
     _hold: Option<TcpListener>,
+    pub recover: Arc<AtomicBool>,
+    pub listening: Arc<AtomicBool>,
 }
 
 impl Drop for Backend {
@@ -332,6 +376,18 @@ fn bound_not_listening() -> Result<(i32, SocketAddr), String> {
     Err("no port for a refusing backend".into())
 }
 
+/// TCP_CORK: what is written stays in the socket until the cork is pulled or the socket is shut down, so that
+/// the last bytes and the FIN leave in ONE segment (the peer gets data and end-of-stream in one read).
+fn set_cork(s: &TcpStream, on: bool) {
+    let v: libc::c_int = if on { 1 } else { 0 };
+    unsafe {
+        libc::setsockopt(s.as_raw_fd(), libc::IPPROTO_TCP, libc::TCP_CORK, &v as *const _ as *const libc::c_void, std::mem::size_of::<libc::c_int>() as u32);
+    }
+}
+
+pub const INTERIM_H1: &[u8] = b"HTTP/1.1 103 Early Hints\r\nLink: </style.css>; rel=preload; as=style\r\n\r\n";
+const SPLIT_PAUSE: Duration = Duration::from_millis(120);
+
 fn set_linger0(s: &TcpStream) {
     let l = libc::linger { l_onoff: 1, l_linger: 0 };
     unsafe {
@@ -342,10 +398,32 @@ fn set_linger0(s: &TcpStream) {
 impl Backend {
     pub fn start(name: &str, h2: bool, mode: BkMode, scripts: Arc<Vec<ReqSpec>>, healthy: bool, log: Log, peer_closed: Arc<AtomicUsize>) -> Result<Backend, String> {
         let stop = Arc::new(AtomicBool::new(false));
+        let recover = Arc::new(AtomicBool::new(false));
+        let listening = Arc::new(AtomicBool::new(false));
         if mode == BkMode::Refuse {
             let (fd, addr) = bound_not_listening()?;
             log.push(name, json!({"ev": "B_Refuse", "bk": name}));
-            return Ok(Backend { name: name.into(), addr, stop, thread: None, raw_fd: Some(fd), _hold: None });
+            return Ok(Backend { name: name.into(), addr, stop, thread: None, raw_fd: Some(fd), _hold: None, recover, listening });
+        }
+        if mode == BkMode::RefuseThenServe {
+            // bound, not listening (connections are refused) until the client says so; then an ordinary backend
+            let (fd, addr) = bound_not_listening()?;
+            log.push(name, json!({"ev": "B_Refuse", "bk": name}));
+            let (stop2, rec2, up2, bname) = (stop.clone(), recover.clone(), listening.clone(), name.to_string());
+            let thread = std::thread::spawn(move || {
+                while !rec2.load(Ordering::SeqCst) {
+                    if stop2.load(Ordering::SeqCst) { unsafe { libc::close(fd); } return; }
+                    std::thread::sleep(Duration::from_millis(2));
+                }
+                let l = unsafe {
+                    libc::listen(fd, 128);
+                    <TcpListener as std::os::unix::io::FromRawFd>::from_raw_fd(fd)
+                };
+                let _ = l.set_nonblocking(true);
+                up2.store(true, Ordering::SeqCst);
+                accept_loop(l, h2, bname, scripts, healthy, log, stop2, peer_closed);
+            });
+            return Ok(Backend { name: name.into(), addr, stop, thread: Some(thread), raw_fd: None, _hold: None, recover, listening });
         }
         let mut listener = None;
         let mut addr = free_addr();
@@ -358,34 +436,38 @@ impl Backend {
         let listener = listener.ok_or("no port for a backend")?;
         if mode == BkMode::NeverAccept {
             log.push(name, json!({"ev": "B_Stall", "bk": name, "at": "accept"}));
-            return Ok(Backend { name: name.into(), addr, stop, thread: None, raw_fd: None, _hold: Some(listener) });
+            return Ok(Backend { name: name.into(), addr, stop, thread: None, raw_fd: None, _hold: Some(listener), recover, listening });
         }
         listener.set_nonblocking(true).map_err(|e| e.to_string())?;
         let stop2 = stop.clone();
         let bname = name.to_string();
-        let thread = std::thread::spawn(move || {
-            let mut conns: Vec<JoinHandle<()>> = Vec::new();
-            let mut n = 0usize;
-            while !stop2.load(Ordering::SeqCst) {
-                match listener.accept() {
-                    Ok((s, _)) => {
-                        n += 1;
-                        let obs = format!("{bname}c{n}");
-                        log.push(&obs, json!({"ev": "B_Accept", "bk": bname, "conn": n}));
-                        let (scripts, log, stop3, pc, bname2) = (scripts.clone(), log.clone(), stop2.clone(), peer_closed.clone(), bname.clone());
-                        conns.push(std::thread::spawn(move || {
-                            let _ = s.set_nonblocking(false);
-                            let _ = s.set_nodelay(true);
-                            if h2 { serve_h2(s, &bname2, &obs, &scripts, healthy, &log, &stop3, &pc) } else { serve_h1(s, &bname2, &obs, &scripts, healthy, &log, &stop3, &pc) }
-                        }));
-                    }
-                    Err(_) => std::thread::sleep(Duration::from_millis(2)),
-                }
-            }
-            for c in conns { let _ = c.join(); }
-        });
-        Ok(Backend { name: name.into(), addr, stop, thread: Some(thread), raw_fd: None, _hold: None })
+        listening.store(true, Ordering::SeqCst);
+        let thread = std::thread::spawn(move || accept_loop(listener, h2, bname, scripts, healthy, log, stop2, peer_closed));
+        Ok(Backend { name: name.into(), addr, stop, thread: Some(thread), raw_fd: None, _hold: None, recover, listening })
     }
+}
+
+#[allow(clippy::too_many_arguments)]
+fn accept_loop(listener: TcpListener, h2: bool, bname: String, scripts: Arc<Vec<ReqSpec>>, healthy: bool, log: Log, stop2: Arc<AtomicBool>, peer_closed: Arc<AtomicUsize>) {
+    let mut conns: Vec<JoinHandle<()>> = Vec::new();
+    let mut n = 0usize;
+    while !stop2.load(Ordering::SeqCst) {
+        match listener.accept() {
+            Ok((s, _)) => {
+                n += 1;
+                let obs = format!("{bname}c{n}");
+                log.push(&obs, json!({"ev": "B_Accept", "bk": bname, "conn": n}));
+                let (scripts, log, stop3, pc, bname2) = (scripts.clone(), log.clone(), stop2.clone(), peer_closed.clone(), bname.clone());
+                conns.push(std::thread::spawn(move || {
+                    let _ = s.set_nonblocking(false);
+                    let _ = s.set_nodelay(true);
+                    if h2 { serve_h2(s, &bname2, &obs, &scripts, healthy, &log, &stop3, &pc) } else { serve_h1(s, &bname2, &obs, &scripts, healthy, &log, &stop3, &pc) }
+                }));
+            }
+            Err(_) => std::thread::sleep(Duration::from_millis(2)),
+        }
+    }
+    for c in conns { let _ = c.join(); }
 }
 
 pub fn h1_response(idx: usize, spec: &ReqSpec) -> (Vec<u8>, usize) {
@@ -405,6 +487,13 @@ pub fn h1_response(idx: usize, spec: &ReqSpec) -> (Vec<u8>, usize) {
         }
         "close" => {
             r.extend_from_slice(format!("HTTP/1.1 200 OK\r\nConnection: close\r\nX-Req: r{idx}\r\n\r\n").as_bytes());
+            let head = r.len();
+            r.extend_from_slice(&body);
+            (r, head)
+        }
+        "clclose" => {
+            // framed by content-length AND announcing that the backend closes the connection behind it
+            r.extend_from_slice(format!("HTTP/1.1 200 OK\r\nContent-Length: {}\r\nConnection: close\r\nX-Req: r{idx}\r\n\r\n", body.len()).as_bytes());
             let head = r.len();
             r.extend_from_slice(&body);
             (r, head)
@@ -536,19 +625,35 @@ fn serve_h1(mut s: TcpStream, bk: &str, obs: &str, scripts: &[ReqSpec], healthy:
                 log.push(obs, json!({"ev": "B_Send", "bk": bk, "r": idx, "bytes": pos, "head": hlen, "total": resp.len(), "units": u}));
             }
             if !okw { log.push(obs, json!({"ev": "B_WriteErr", "bk": bk, "r": idx})); return; }
-            if spec.framing == "close" { close_and_wait_peer(s, stop, log, obs, pc); return; }
+            if spec.framing == "close" || spec.framing == "clclose" { close_and_wait_peer(s, stop, log, obs, pc); return; }
             continue;
         }
         let faulty = spec.fault != "none" && spec.at != "between";
         let cut = if faulty { cut_offset(&spec, resp.len(), hlen, None) } else { resp.len() };
-        if cut > 0 {
-            if s.write_all(&resp[..cut]).and_then(|_| s.flush()).is_err() {
+        // an interim response first: in its own segment, or in the same write as what follows
+        let mut first: Vec<u8> = Vec::new();
+        if spec.interim != "none" {
+            first.extend_from_slice(INTERIM_H1);
+            log.push(obs, json!({"ev": "B_Interim", "bk": bk, "r": idx, "how": spec.interim}));
+            if spec.interim == "sep" || cut == 0 {
+                if s.write_all(&first).is_err() { log.push(obs, json!({"ev": "B_WriteErr", "bk": bk, "r": idx})); return; }
+                first.clear();
+                std::thread::sleep(Duration::from_millis(100));
+            }
+        }
+        first.extend_from_slice(&resp[..cut]);
+        // bytes and close in one go: one segment carrying the data and the FIN
+        let fused_close = !spec.split && ((faulty && spec.fault == "close") || (!faulty && (spec.framing == "clclose" || spec.framing == "close")));
+        if fused_close { set_cork(&s, true); }
+        if !first.is_empty() {
+            if s.write_all(&first).and_then(|_| s.flush()).is_err() {
                 log.push(obs, json!({"ev": "B_WriteErr", "bk": bk, "r": idx}));
                 return;
             }
         }
         log.push(obs, json!({"ev": "B_Send", "bk": bk, "r": idx, "bytes": cut, "head": hlen, "total": resp.len(),
                               "units": if cut >= hlen { body_units_in(&spec, cut - hlen) } else { 0 }}));
+        if spec.split && (faulty || spec.framing == "clclose" || spec.framing == "close") { std::thread::sleep(SPLIT_PAUSE); }
         if faulty {
             log.push(obs, json!({"ev": "B_Fault", "bk": bk, "r": idx, "kind": spec.fault, "at": spec.at}));
             match spec.fault.as_str() {
@@ -564,7 +669,7 @@ fn serve_h1(mut s: TcpStream, bk: &str, obs: &str, scripts: &[ReqSpec], healthy:
                 _ => { wait_stop(stop, &mut s); return; }
             }
         }
-        if spec.framing == "close" {
+        if spec.framing == "close" || spec.framing == "clclose" {
             close_and_wait_peer(s, stop, log, obs, pc);
             return;
         }
@@ -622,6 +727,7 @@ fn serve_h2(s: TcpStream, bk: &str, obs: &str, scripts: &[ReqSpec], healthy: boo
         return;
     }
     c.send(&Frame::settings(&[]));
+    let mut after_goaway = false;
     loop {
         if stop.load(Ordering::SeqCst) { return; }
         let Some(f) = c.read_frame(Duration::from_millis(20)) else {
@@ -668,14 +774,63 @@ fn serve_h2(s: TcpStream, bk: &str, obs: &str, scripts: &[ReqSpec], healthy: boo
                     if !okw { log.push(obs, json!({"ev": "B_WriteErr", "bk": bk, "r": idx})); return; }
                     continue;
                 }
+                if after_goaway {
+                    // a stream above the announced last_stream_id: a server that is shutting down ignores it
+                    log.push(obs, json!({"ev": "B_ReqAfterGoaway", "bk": bk, "r": idx, "sid": f.sid}));
+                    continue;
+                }
+                let mut first: Vec<u8> = Vec::new();
+                if spec.interim != "none" {
+                    first = Frame::headers(f.sid, crate::h2kit::hpack_block(&[(":status", "103"), ("link", "</style.css>; rel=preload; as=style")]), true, false).encode();
+                    log.push(obs, json!({"ev": "B_Interim", "bk": bk, "r": idx, "how": spec.interim}));
+                    if spec.interim == "sep" {
+                        if !c.send_raw(&first) { log.push(obs, json!({"ev": "B_WriteErr", "bk": bk, "r": idx})); return; }
+                        first.clear();
+                        std::thread::sleep(Duration::from_millis(100));
+                    }
+                }
+                if spec.fault == "goaway" {
+                    // graceful shutdown (GOAWAY NO_ERROR) at a point of the stream's life; last_stream_id below the
+                    // stream (it will NOT be processed: nothing more is sent for it), equal or above (it will)
+                    let last = match spec.lsid.as_str() { "below" => f.sid.saturating_sub(2), "above" => 0x7fff_ffff, _ => f.sid };
+                    let ga = Frame::goaway(last, 0).encode();
+                    let cutg = match spec.at.as_str() { "prehdr" => 0, "posthdr" => hlen, _ => resp.len() };
+                    let mut parts: Vec<Vec<u8>> = Vec::new();
+                    let mut head = first.clone();
+                    head.extend_from_slice(&resp[..cutg]);
+                    log.push(obs, json!({"ev": "B_Fault", "bk": bk, "r": idx, "kind": "goaway", "at": spec.at, "last": last, "sid": f.sid}));
+                    if spec.lsid == "below" {
+                        head.extend_from_slice(&ga);
+                        parts.push(head);
+                    } else if spec.split {
+                        if !head.is_empty() { parts.push(head); }
+                        parts.push(ga);
+                        if cutg < resp.len() { parts.push(resp[cutg..].to_vec()); }
+                    } else {
+                        head.extend_from_slice(&ga);
+                        head.extend_from_slice(&resp[cutg..]);
+                        parts.push(head);
+                    }
+                    for (pi, part) in parts.iter().enumerate() {
+                        if pi > 0 { std::thread::sleep(SPLIT_PAUSE); }
+                        if !c.send_raw(part) { log.push(obs, json!({"ev": "B_WriteErr", "bk": bk, "r": idx})); return; }
+                    }
+                    log.push(obs, json!({"ev": "B_Send", "bk": bk, "r": idx, "bytes": if spec.lsid == "below" { cutg } else { resp.len() }, "head": hlen, "total": resp.len(), "units": spec.body}));
+                    after_goaway = true;
+                    continue;
+                }
                 let faulty = spec.fault != "none" && spec.at != "between";
                 let cut = if faulty { cut_offset(&spec, resp.len(), hlen, Some(fde)) } else { resp.len() };
-                if cut > 0 && !c.send_raw(&resp[..cut]) {
+                first.extend_from_slice(&resp[..cut]);
+                let fused_close = faulty && spec.fault == "close" && !spec.split;
+                if fused_close { set_cork(&c.s, true); }
+                if !first.is_empty() && !c.send_raw(&first) {
                     log.push(obs, json!({"ev": "B_WriteErr", "bk": bk, "r": idx}));
                     return;
                 }
                 log.push(obs, json!({"ev": "B_Send", "bk": bk, "r": idx, "bytes": cut, "head": hlen, "total": resp.len(),
                                       "units": if cut >= hlen { (cut - hlen) / (UNIT + 9) } else { 0 }}));
+                if faulty && spec.split { std::thread::sleep(SPLIT_PAUSE); }
                 if faulty {
                     log.push(obs, json!({"ev": "B_Fault", "bk": bk, "r": idx, "kind": spec.fault, "at": spec.at}));
                     match spec.fault.as_str() {
@@ -736,13 +891,15 @@ pub struct ReqObs {
     pub t_status_ms: Option<u64>,
     pub t_end_ms: Option<u64>,
     pub t_sent: Option<Instant>,
+    /// interim (1xx) responses seen before the final one
+    pub interims: u32,
 }
 
 impl ReqObs {
     pub fn to_json(&self) -> Value {
         json!({"r": self.idx, "sent": self.sent, "status": self.status, "extra_answers": self.extra_answers,
                "declared": self.declared, "framing": self.framing, "body_len": self.body.len(), "xreq": self.xreq,
-               "complete": self.complete, "abort": self.abort, "conn_close_hdr": self.conn_close_hdr,
+               "complete": self.complete, "abort": self.abort, "conn_close_hdr": self.conn_close_hdr, "interims": self.interims,
                "t_status_ms": self.t_status_ms, "t_end_ms": self.t_end_ms})
     }
     /// ("<status>|none", "complete|abort|closed|hang|notsent")
@@ -795,6 +952,7 @@ impl H1Reader {
 
     /// Read one response for `o`. Returns when the response is complete, the connection ended, or `until` passed.
     fn read_response(&mut self, o: &mut ReqObs, until: Instant, log: &Log) {
+      loop {
         // head
         let head_end = loop {
             if let Some(p) = find(&self.buf, b"\r\n\r\n") { break p + 4; }
@@ -826,8 +984,17 @@ impl H1Reader {
             o.finish(Some("garbled"));
             return;
         }
-        log.push("client", json!({"ev": "C_Status", "r": o.idx, "status": o.status}));
         let st = o.status.unwrap_or(0);
+        if (100..200).contains(&st) && st != 101 {
+            // an interim response: not the answer, the final response follows
+            o.interims += 1;
+            o.status = None;
+            o.t_status_ms = None;
+            o.conn_close_hdr = false;
+            log.push("client", json!({"ev": "C_Interim", "r": o.idx, "status": st}));
+            continue;
+        }
+        log.push("client", json!({"ev": "C_Status", "r": o.idx, "status": o.status}));
         if st == 204 || st == 304 || (100..200).contains(&st) {
             o.framing = "none".into();
             o.complete = true;
@@ -911,6 +1078,7 @@ impl H1Reader {
                 }
             }
         }
+      }
     }
 }
 
@@ -926,7 +1094,7 @@ pub fn run_h1_client(env: &ScnEnv, scn: &Scenario, cfg: &RunCfg) -> Result<Vec<R
     let s = TcpStream::connect_timeout(&env.front, Duration::from_secs(10)).map_err(|e| format!("client connect: {e}"))?;
     let _ = s.set_nodelay(true);
     let mut rd = H1Reader { s, buf: Vec::new(), eof: None };
-    let n = scn.reqs.len();
+    let (lo, n) = scn.sel.unwrap_or((0, scn.reqs.len()));
     let mut obs: Vec<ReqObs> = (0..n).map(|i| ReqObs { idx: i, ..Default::default() }).collect();
     let req_bytes = |i: usize| -> Vec<u8> {
         let p = request_path(scn, i);
@@ -943,15 +1111,15 @@ pub fn run_h1_client(env: &ScnEnv, scn: &Scenario, cfg: &RunCfg) -> Result<Vec<R
     if scn.mode == "pipe" {
         for (i, r) in scn.reqs.iter().enumerate() { if r.route == "iplimit" && holders.is_empty() { holders.push(hold_ip_slot(env, scn, i)?); } }
         let mut all = Vec::new();
-        for i in 0..n { all.extend_from_slice(&req_bytes(i)); }
+        for i in lo..n { all.extend_from_slice(&req_bytes(i)); }
         let t0 = Instant::now();
         let okw = rd.s.write_all(&all).is_ok();
-        for (i, o) in obs.iter_mut().enumerate() {
+        for (i, o) in obs.iter_mut().enumerate().skip(lo) {
             o.sent = okw;
             o.t_sent = Some(t0);
             log.push("client", json!({"ev": "C_Send", "r": i}));
         }
-        for i in 0..n {
+        for i in lo..n {
             if !obs[i].sent { obs[i].abort = Some("notsent".into()); continue; }
             // the deadline of a pipelined request starts when the previous answer ended
             let start = Instant::now();
@@ -960,14 +1128,14 @@ pub fn run_h1_client(env: &ScnEnv, scn: &Scenario, cfg: &RunCfg) -> Result<Vec<R
             log.push("client", json!({"ev": "C_End", "r": i, "complete": obs[i].complete, "abort": obs[i].abort}));
         }
     } else {
-        for i in 0..n {
-            if rd.eof.is_some() || (i > 0 && obs[i - 1].conn_close_hdr) || (i > 0 && !obs[i - 1].complete) {
+        for i in lo..n {
+            if rd.eof.is_some() || (i > lo && obs[i - 1].conn_close_hdr) || (i > lo && !obs[i - 1].complete) {
                 // an unsolicited close between requests is an explicit connection-level event
                 obs[i].abort = Some("notsent".into());
                 log.push("client", json!({"ev": "C_NotSent", "r": i}));
                 continue;
             }
-            if i > 0 && scn.mode == "seqgap" && scn.reqs[..i].iter().any(|r| r.at == "between") {
+            if i > lo && scn.mode == "seqgap" && scn.reqs[..i].iter().any(|r| r.at == "between") {
                 // wait until sozu has reacted to the backend's close of the idle connection
                 let until = Instant::now() + Duration::from_secs(4);
                 while env.peer_closed.load(Ordering::SeqCst) == 0 && Instant::now() < until {
@@ -976,7 +1144,7 @@ pub fn run_h1_client(env: &ScnEnv, scn: &Scenario, cfg: &RunCfg) -> Result<Vec<R
                 std::thread::sleep(Duration::from_millis(30));
             }
             // anything that arrives between two requests is an unsolicited second answer
-            if i > 0 {
+            if i > lo {
                 let before = rd.buf.len();
                 rd.fill(Instant::now() + Duration::from_millis(if scn.mode == "seqgap" { 5 } else { 30 }));
                 if rd.buf.len() > before || before > 0 {
@@ -1015,7 +1183,7 @@ pub fn run_h1_client(env: &ScnEnv, scn: &Scenario, cfg: &RunCfg) -> Result<Vec<R
     }
     set_linger0(&rd.s);
     drop(holders);
-    Ok(obs)
+    Ok(obs.split_off(lo))
 }
 
 // ---- TLS + HTTP/2 client --------------------------------------------------------------------------
@@ -1024,17 +1192,17 @@ pub fn run_h2_client(env: &ScnEnv, scn: &Scenario, cfg: &RunCfg) -> Result<Vec<R
     let log = &env.log;
     let mut c = h2_tls_client(env.front, "localhost", Duration::from_secs(10))?;
     if !c.client_preface(&[]) { return Err("h2 client preface".into()); }
-    let n = scn.reqs.len();
-    let mut obs: Vec<ReqObs> = (0..n).map(|i| ReqObs { idx: i, ..Default::default() }).collect();
-    let sid_of = |i: usize| (2 * i + 1) as u32;
+    let (lo, n) = scn.sel.unwrap_or((0, scn.reqs.len()));
+    let mut obs: Vec<ReqObs> = (0..n).map(|i| ReqObs { idx: i, sent: i < lo, complete: i < lo, ..Default::default() }).collect();
+    let sid_of = |i: usize| (2 * (i - lo.min(i)) + 1) as u32;
     let wait_total = cfg.deadline + cfg.grace;
-    let mut next = 0usize;
+    let mut next = lo;
     let mut holders: Vec<Holder> = Vec::new();
     let mut conn_dead: Option<String> = None;
     loop {
         // send what may be sent
-        while next < n && conn_dead.is_none() && (scn.mode == "mux" || next == 0 || obs[next - 1].ended()) {
-            if next > 0 && scn.mode == "seqgap" && scn.reqs[..next].iter().any(|r| r.at == "between") {
+        while next < n && conn_dead.is_none() && (scn.mode == "mux" || next == lo || obs[next - 1].ended()) {
+            if next > lo && scn.mode == "seqgap" && scn.reqs[..next].iter().any(|r| r.at == "between") {
                 let until = Instant::now() + Duration::from_secs(4);
                 while env.peer_closed.load(Ordering::SeqCst) == 0 && Instant::now() < until {
                     std::thread::sleep(Duration::from_millis(5));
@@ -1076,7 +1244,7 @@ pub fn run_h2_client(env: &ScnEnv, scn: &Scenario, cfg: &RunCfg) -> Result<Vec<R
             if c.eof { conn_dead = Some(if c.io_error.is_some() { "reset".into() } else { "eof".into() }); }
             continue;
         };
-        let i = if f.sid >= 1 && f.sid % 2 == 1 { Some(((f.sid - 1) / 2) as usize).filter(|i| *i < n) } else { None };
+        let i = if f.sid >= 1 && f.sid % 2 == 1 { Some(((f.sid - 1) / 2) as usize + lo).filter(|i| *i < n) } else { None };
         if std::env::var("VH_XKIT_FRAMES").is_ok() {
             log.push("clientdbg", json!({"ev": "C_Frame", "ty": f.ty, "sid": f.sid, "flags": f.flags, "len": f.payload.len()}));
         }
@@ -1091,8 +1259,11 @@ pub fn run_h2_client(env: &ScnEnv, scn: &Scenario, cfg: &RunCfg) -> Result<Vec<R
                     if o.ended() {
                         o.extra_answers += 1;
                     } else if let Some(st) = st {
-                        if o.status.is_some() && !(100..200).contains(&o.status.unwrap()) {
+                        if o.status.is_some() {
                             o.extra_answers += 1;
+                        } else if (100..200).contains(&st) {
+                            o.interims += 1;
+                            log.push("client", json!({"ev": "C_Interim", "r": i, "status": st}));
                         } else {
                             o.status = Some(st);
                             o.framing = "h2".into();
@@ -1159,7 +1330,7 @@ pub fn run_h2_client(env: &ScnEnv, scn: &Scenario, cfg: &RunCfg) -> Result<Vec<R
     while Instant::now() < until && !c.eof {
         if let Some(f) = c.read_frame(Duration::from_millis(10)) {
             if (f.ty == HEADERS || f.ty == DATA) && f.sid % 2 == 1 {
-                let i = ((f.sid - 1) / 2) as usize;
+                let i = ((f.sid - 1) / 2) as usize + lo;
                 if i < n && obs[i].ended() { obs[i].extra_answers += 1; }
                 if f.ty == HEADERS { let _ = c.hp.decode(&f.payload); }
             }
@@ -1167,7 +1338,7 @@ pub fn run_h2_client(env: &ScnEnv, scn: &Scenario, cfg: &RunCfg) -> Result<Vec<R
     }
     set_linger0(&c.s.sock);
     drop(holders);
-    Ok(obs)
+    Ok(obs.split_off(lo))
 }
 
 /// A connection that holds the per-(cluster, source IP) slot of the `iplimit` cluster for as long as it lives.
@@ -1246,6 +1417,21 @@ pub fn hold_ip_slot(env: &ScnEnv, scn: &Scenario, idx: usize) -> Result<Holder, 
 
 /// Run one scenario: returns (observations, events of all observers).
 pub fn run_scenario(env: &ScnEnv, scn: &Scenario, cfg: &RunCfg) -> Result<(Vec<ReqObs>, Vec<Value>), String> {
+    if scn.mode == "newconn" {
+        // every request on a frontend connection of its own, one after the other; the refusing backend recovers
+        // once the requests scripted "refuse" are over; a request may wait (gap_ms) before it is sent
+        let mut obs = Vec::new();
+        for i in 0..scn.reqs.len() {
+            if scn.reqs[i].fault != "refuse" && scn.reqs[..i].iter().any(|r| r.fault == "refuse") { env.recover_backend(); }
+            if scn.reqs[i].gap_ms > 0 { std::thread::sleep(Duration::from_millis(scn.reqs[i].gap_ms)); }
+            let mut one = scn.clone();
+            one.mode = "seq".into();
+            one.sel = Some((i, i + 1));
+            let mut o = if scn.front == "h2" { run_h2_client(env, &one, cfg)? } else { run_h1_client(env, &one, cfg)? };
+            obs.append(&mut o);
+        }
+        return Ok((obs, env.log.snapshot()));
+    }
     let obs = if scn.front == "h2" { run_h2_client(env, scn, cfg)? } else { run_h1_client(env, scn, cfg)? };
     Ok((obs, env.log.snapshot()))
 }
